@@ -267,8 +267,10 @@ def detailOf (cp : Option CP) (ty : Option Str) (out : Str) : V :=
 /-- what `pop(element)` computes for an element with content parameters: base64, element-level URI, entity decoding, the
 plain-text-or-HTML guess of the non-Atom formats, relative-URI resolution and sanitisation of embedded markup (each under its
 option and its element table), the text repairs.  Returns the final content type and the output. -/
+def cpBase64 (c : Core) : Bool := match c.cp with | some p => p.base64 | none => false
+
 def contentOutput (o : Ops) (c : Core) (element : Str) (out0 : Str) : Option Str × Str :=
-  let b64 := match c.cp with | some p => p.base64 | none => false
+  let b64 := cpBase64 c
   let out1 := if b64 then (o.b64 out0).getD out0 else out0
   let out2 := if canBeRelativeUri.contains element && !out1.isEmpty && element != S "id" then o.join c.base.baseuri.toList out1 else out1
   let ty0 : Option Str := c.cp.map (·.type)
@@ -279,6 +281,9 @@ def contentOutput (o : Ops) (c : Core) (element : Str) (out0 : Str) : Option Str
   let out4 := if htmlish && o.resolveOn && canContainRelativeUris.contains element then o.resolveMarkup c.base.baseuri.toList tyv out3 else out3
   let out5 := if htmlish && o.sanitizeOn && canContainDangerous.contains element then o.sanitize tyv out4 else out4
   (ty1, o.fix out5)
+
+/-- the content type `pop()` ends with (after the plain-text-or-HTML guess) -/
+def finalType (o : Ops) (c : Core) (element : Str) (out0 : Str) : Option Str := (contentOutput o c element out0).1
 
 /-- `pop(element)` for the open text construct: the returned value (None on an empty / mismatched stack) and the new state -/
 def popFull (o : Ops) (s : MSt) (element : Str) : Option Str × MSt :=
